@@ -62,13 +62,13 @@ def r1_concrete_tags(ctx):
             if (ct.get("callee") or "").endswith("HashSet::insert"):
                 inserts.setdefault(v, []).append(cb)
                 total += 1
-    ctx.floor(R, "ConcreteType insert sites", total, 11)
+    ctx.floor(R, "ConcreteType insert sites", total, len(cv))
     for v in cv:
         site = "%s|insert %s" % (b.key, v)
         guarded = None
         for ib in inserts.get(v, []):
             for cb, ct in compat_calls:
-                if not b.dominates(cb, ib):
+                if not b.reaches(cb, ib):
                     continue
                 a1 = fl.canon_op(ct["args"][1])
                 if not a1 or a1[0] != pat_param[0]:
